@@ -299,11 +299,16 @@ def _c16_stages(tier):
     # small triple: the recursion (Strassen inside the four mp sections) is deep here
     for t in ([2, 4, 7] if tier == "thorough" else [4]):
         st.append(S("small-gomp-asan", "func", ["--fam", OMP_FAM], (150, 700), (4000, 1300), env={"OMP_NUM_THREADS": str(t)}, timeout=900))
+    # the multi-core front ends themselves (quadrant sections + remainder strips), small cutoffs so that they split
+    MP = "mzd_mul_mp,mzd_addmul_mp"
+    for t in ([2, 3, 4, 8, 16] if tier == "thorough" else [2, 4, 8]):
+        st.append(S("small-gomp-asan", "func", ["--ops", MP], (260, 700), (3000, 1300), env={"OMP_NUM_THREADS": str(t)}, timeout=600))
     # races inside parallel regions: clang + libomp + Archer
     for t in ([2, 4, 16] if tier == "thorough" else [4, 16]):
         env = {"OMP_NUM_THREADS": str(t), "OMP_TOOL_LIBRARIES": "/usr/lib/llvm-14/lib/libarcher.so",
                "TSAN_OPTIONS": "halt_on_error=0:ignore_noninstrumented_modules=1:report_signal_unsafe=0:history_size=4"}
         st.append(S("host-omp-archer", "threads", ["--arg", "omp", "--fam", OMP_FAM, "--reps", "3", "--mindim", "1100"], (5, 1500), (100, 2400), env=env, timeout=900))
+        st.append(S("host-omp-archer", "threads", ["--arg", "omp", "--ops", MP, "--reps", "4", "--mindim", "300"], (6, 900), (120, 1600), env=env, timeout=900))
     return st
 PROPS["C16"] = dict(
     level="exploration",
